@@ -198,6 +198,8 @@ Section S.
         destruct (sp_access_cell frepr w h w1 ci Hlt E1) as [Hc _].
         repeat split; [exists v|exists ci|]; auto.
       + (* late path, cell known *)
+        destruct (sp_access_cell frepr w h w1 ci Hlt E1) as [Hc1 _].
+        rewrite (sp_access_idem frepr w1 h ci Hc1) in H.
         revert H. 
         destruct (if isdir (w_fs w1) (jobdir w1 (getH w1 h)) then _ else _) as [[f2 e2]|e2]; [|discriminate].
         set (w2 := set_H (set_fs w1 f2 e2) h _).
@@ -217,7 +219,15 @@ Section S.
         * exists ci3. exact Hc3.
         * simpl. rewrite getH_register. change (getH (cell_loaded (set_fs w3 f4 e4) ci3 v) h) with (getH w3 h).
           congruence.
-    - (* late path, first access failed *)
+    - (* late path, first access failed: the second evaluation of self.statepoint must succeed *)
+      destruct (sp_access frepr w1 h) as [w1x [cx|ex]] eqn:E1x; [|discriminate].
+      assert (Hlt1 : (h < length (w_hs w1))%nat) by lia.
+      destruct (sp_access_cell frepr w1 h w1x cx Hlt1 E1x) as [_ [Hidx Hsx]].
+      assert (Hlen1' : length (w_hs w1x) = length (w_hs w)).
+      { pose proof (sp_access_len frepr w1 h) as Hl. rewrite E1x in Hl. simpl in Hl. lia. }
+      assert (Hid1' : h_id (getH w1x h) = h_id (getH w h)) by congruence.
+      clear Hlen1 Hid1 Hs1 Hidx Hsx Hlt1 E1x E1. rename w1 into w1o. rename w1x into w1.
+      rename Hlen1' into Hlen1. rename Hid1' into Hid1.
       revert H.
       destruct (if isdir (w_fs w1) (jobdir w1 (getH w1 h)) then _ else _) as [[f2 e2]|e2]; [|discriminate].
       set (w2 := set_H (set_fs w1 f2 e2) h _).
@@ -255,6 +265,7 @@ Section S.
   Lemma init_fresh_post : forall w h sp,
     (h < length (w_hs w))%nat ->
     h_cell (getH w h) = None -> h_cached (getH w h) = Some sp -> h_id (getH w h) = calc_id frepr sp ->
+    is_null sp = false ->
     let wsd := wsp (getS w (h_s (getH w h))) in
     let jd := wsd ++ [h_id (getH w h)] in
     (forall k, (k <= length wsd)%nat -> get (w_fs w) (firstn k wsd) = Some Dir) ->
@@ -265,12 +276,12 @@ Section S.
       valid_job frepr (w_fs w') wsd (h_id (getH w h)) sp /\
       (forall q, q <> jd -> q <> jd ++ [SPF] -> get (w_fs w') q = get (w_fs w) q).
   Proof.
-    intros w h sp Hlt Hcell Hcached Hid wsd jd Hchain Hfree.
+    intros w h sp Hlt Hcell Hcached Hid Hnn wsd jd Hchain Hfree.
     assert (E1 : exists w1, sp_access frepr w h = (w1, inl (length (w_cs w))) /\ c_data (getC w1 (length (w_cs w))) = sp).
     { unfold sp_access. rewrite Hcell, Hcached. eexists. split; [reflexivity|].
       rewrite getC_set_H. unfold getC, add_C. simpl. rewrite nth_app_new. reflexivity. }
     destruct E1 as [w1 [E1 Hd]].
-    destruct (init_writes frepr w h w1 _ sp Hlt E1 Hd (eq_sym Hid)) as [w' [Hi [G _]]].
+    destruct (init_writes frepr w h w1 _ sp Hlt E1 Hd (eq_sym Hid) Hnn) as [w' [Hi [G _]]].
     - apply Hfree. apply under_app.
     - apply Hfree. apply under_app.
     - right. split; [apply Hfree; apply under_refl|exact Hchain].
@@ -282,7 +293,7 @@ Section S.
       split; [exact Gjd|]. split; [exact Gf|]. split.
       + unfold valid_job. split; [exact Gjd|]. exists (sp_content frepr sp).
         replace (wsd ++ [h_id (getH w h); SPF]) with (jd ++ [SPF]) by (unfold jd; rewrite <- app_assoc; reflexivity).
-        split; [exact Gf|]. split; [reflexivity|]. symmetry. exact Hid.
+        split; [exact Gf|]. split; [reflexivity|]. split; [symmetry; exact Hid|exact Hnn].
       + intros q H1 H2. rewrite G. apply path_eqb_neq in H1, H2. rewrite H2, H1. reflexivity.
   Qed.
 
@@ -295,7 +306,7 @@ Section S.
     exists w1 h, open_id w si x = (w1, inl h) /\ h_id (getH w1 h) = i /\
                  snd (sp_read frepr w1 h) = inl sp /\ w_fs w1 = w_fs w.
   Proof.
-    intros w si x i sp Hc Hci Hr [Hdir [c [Hf [Hj Hh]]]].
+    intros w si x i sp Hc Hci Hr [Hdir [c [Hf [Hj [Hh Hnn]]]]].
     unfold open_id. rewrite Hc, Hr, Hci. eexists _, _. split; [reflexivity|].
     assert (Hh' : getH (add_H w (mkH si i None None true)) (length (w_hs w)) = mkH si i None None true).
     { unfold getH, add_H. simpl. apply nth_app_new. }
@@ -303,7 +314,7 @@ Section S.
     unfold sp_read, sp_access. rewrite Hh'. simpl.
     unfold load_file, spfile, jobdir. simpl. rewrite getS_add_H. rewrite <- app_assoc. simpl.
     change (w_fs (add_H w (mkH si i None None true))) with (w_fs w).
-    rewrite Hf, Hj, Hh, str_eqb_refl. simpl.
+    rewrite Hf, Hj, Hh, str_eqb_refl, Hnn. simpl.
     rewrite getC_set_H, getC_register. unfold getC, add_C. simpl. rewrite nth_app_new. reflexivity.
   Qed.
 End S.
